@@ -191,8 +191,11 @@ def cases(tier, seed, focus=None):
         # rows clustered around a large common gradient (float32): distances recovered from the Gramian
         # (|x|^2 + |y|^2 - 2<x,y>) are rounding noise there, the true pairwise distances are not
         for j in range(24 if thorough else 8):
-            spec = {"kind": "offset", "m": rng.randint(6, 9), "n": rng.choice([24, 40]), "seed": rng.randrange(10**9),
+            # (every third case with more than 25 rows: torch.cdist's DEFAULT mode switches to the Gramian formula there)
+            spec = {"kind": "offset", "m": rng.randint(6, 9) if j % 3 else rng.choice([26, 28, 32]), "n": rng.choice([24, 40]), "seed": rng.randrange(10**9),
                     "ratio": rng.choice([300.0, 500.0]), "spread": rng.choice([0.05, 0.1]), "hetero": True, "scale": 1.0, "dtype": "float32"}
+            if spec["m"] > 25:
+                spec.update(ratio=rng.choice([3000.0, 10000.0]), tight=2, spread=0.1)  # (Krum(f=1, k=2): the two tight rows are selected)
             if j % 2 == 0:
                 out.append({"clause": "orthogonal", "agg": agg, "matrix": spec, "q": "haar", "qrow": 0,
                             "qseed": rng.randrange(10**6), "rseed": rng.randrange(10**6)})
